@@ -196,7 +196,7 @@ def run(ctx):
     order = sorted(range(len(jobs)), key=lambda k: -jobs[k]["inp"]["n"])
     t = time.time()
     mc = c01.Background(model_check_runs)                       # (M) runs overlap with the case execution
-    results = cases.run_all([jobs[k] for k in order], procs=4 if ctx.quick else 6, workdir=ctx.workdir)
+    results = cases.run_all([jobs[k] for k in order], procs=4 if ctx.quick else 6, workdir=ctx.workdir, log=ctx.log)
     ctx.log("executed %d cases in %.1fs" % (len(results), time.time() - t))
     c01.model_check_apply(ctx, mc.result())
     files, l2 = [], []
@@ -212,8 +212,6 @@ def run(ctx):
         for label, fmt, evs in r["lz"]:
             if fmt == "lzma2":
                 l2.append((label, evs))
-    def fkey(label, e, i):
-        return "file:%s:%s" % (label.split(",")[0], e.get("n", e.get("e")) if e.get("e") == "F" else e.get("e"))
     def fkey2(label, e, i):
         nm = e.get("n")
         if e.get("e") == "F" and nm:
